@@ -542,9 +542,22 @@ def install(eng):
 
     def b_n_calls(e, args, kwargs, fr, node):
         name = B.fmt_of(e, args[0], node.args[0], fr)
-        return vint(sum(v for k, v in e.callcount.items() if k.endswith('.' + name) or k == name))
+        return vint(sum(v for k, v in e.callcount.items() if k.endswith('.' + name) or k == name or k.endswith('.<' + name + '>')))
 
     eng.builtin_names['n_calls'] = PyObj('builtin', b_n_calls)
+
+    def b_n_added(e, args, kwargs, fr, node):
+        """n_added('name'): how many addCallback/addErrback/addBoth/addCallbacks registrations of this activation name a
+        callable whose qualified name ends with `name` (the glue between one unit and the handler that carries on)"""
+        name = B.fmt_of(e, args[0], node.args[0], fr)
+        n = 0
+        for ev in (e.st.trace or []):
+            if ev[0] == 'Add':
+                cbs = str(ev[2]).split(':', 1)[1].split(',') if ':' in str(ev[2]) else []
+                n += sum(1 for c_ in cbs if c_ == name or c_.endswith('.' + name) or c_.endswith('<' + name + '>'))
+        return vint(n)
+
+    eng.builtin_names['n_added'] = PyObj('builtin', b_n_added)
 
     def b_promise(e, args, kwargs, fr, node):
         d = args[0]
